@@ -24,6 +24,14 @@ def loop_src(loop, finite):
         return "var i=0; var s='%s'; while (%s) { i++; /a{20}b/.test(s) } r = i;" % ("a" * 30, "i<3" if finite else "true")
     if loop == "regex_lookahead":
         return "r = /(?=(a+)+b)a/.test(%s) ? 1 : 0;" % ("'aab'" if finite else SUBJ)
+    if loop == "regex_short_runs":
+        # a lookbehind is tried from every start position at every position: ~n^2/2 steps in runs of 2-3 steps
+        return "var s = 'a'.repeat(%d); r = /(?<=b)c/.test(s) ? 1 : 0;" % (12 if finite else 400)
+    if loop == "regex_many_attempts":
+        # every attempt of the search fails after ~21 steps: no single run reaches the poll interval
+        return "var s = 'aaaaaaaaaaaaaaaaaaaac'.repeat(%d); r = /a{20}b/.test(s) ? 1 : 0;" % (2 if finite else 400)
+    if loop == "regex_lookbehind_in_loop":
+        return "var s = 'ab'.repeat(%d); r = /(?:(?<=a)b|a)+c/.test(s) ? 1 : 0;" % (4 if finite else 900)
     if loop == "nested_eval_loop":
         return "var i=0; while (%s) { i++; (1,eval)('var q=0; for (var j=0;j<20;j++) q+=j') } r = i;" % ("i<3" if finite else "true")
     if loop.startswith("rx_"):
